@@ -23,7 +23,12 @@ impl RunningTaskComm {
 
     fn send_stop(&mut self, reason: StopReason) {
         if let Some(sender) = std::mem::take(&mut self.stop_sender) {
-            assert!(sender.send(reason).is_ok());
+            // The task future may have already dropped the receiver, e.g. when the process
+            // of the task has already ended and the task future is just finishing
+            // (flushing a stream). The task is ending anyway, so there is nothing to stop.
+            if sender.send(reason).is_err() {
+                log::debug!("Stopping a task that is already finishing");
+            }
         } else {
             log::debug!("Stopping a task in stopping process");
         }
